@@ -51,13 +51,16 @@ def iter_view(ctx, d):
     return n, key
 
 
+GROUP_SIGNALS = ("SIGINT", "SIGTERM", "SIGHUP")
+
+
 def build():
     p = Pack("C20", files=[RT, MR])
     install_common(p)
     p.models["fn.__call__"] = lambda interp, fv, args, kwargs: fv.attrs["fn"](interp, args, kwargs)
     # the tracker process inherits the warning filters of its parent (python -W error, PYTHONWARNINGS=error): warnings.warn may raise
     p.raising_log_calls = {"warnings.warn"}
-    p.log_calls.update({"util.log_to_stderr", "signal.signal", "signal.pthread_sigmask", "f.close", "traceback.print_tb"})
+    p.log_calls.update({"util.log_to_stderr", "signal.pthread_sigmask", "f.close", "traceback.print_tb"})
     p.models["sys.exc_info"] = lambda i, *a: (None, None, None)
 
     def excepthook(interp, *a):
@@ -76,6 +79,14 @@ def build():
         g["REG0"] = {t: env_reg.d[t].clone() for t in TYPES} if all(isinstance(env_reg.d[t], SDict) for t in TYPES) else None
         g["EV0"] = len(ctx.events)
         g["PARSED"] = None
+        if not g.get("SERVING"):
+            # the tracker lives in the process group of its clients: before it serves the first request it must be deaf to every signal
+            # that a terminal, a session or a service manager sends to the whole group to end the clients (Ctrl-C, kill, hang-up) -
+            # otherwise it dies together with them and what is registered stays behind for good (C20 "... or by being killed")
+            g["SERVING"] = True
+            ign = g.get("IGNORED", set())
+            for sig in GROUP_SIGNALS:
+                ctx.check("main/deaf-to-%s-before-serving" % sig, sig in ign)
         if ctx.choose(2, "readline-eof") == 1:
             g["EOF"] = True
             return b""
@@ -253,10 +264,21 @@ def build():
     p.for_sequence = for_sequence
     p.models["truth:SDict"] = lambda interp, d: iter_view(interp.ctx, d)[0] > 0
 
+    def signal_signal(interp, args, kwargs):
+        sig, handler = args
+        if not (isinstance(sig, str) and isinstance(handler, str)):
+            raise Unsupported("signal.signal(%r, %r)" % (sig, handler))
+        ign = interp.ctx.ghost.setdefault("IGNORED", set())
+        (ign.add if handler == "SIG_IGN" else ign.discard)(sig)
+        return "SIG_DFL"
+
+    SIGNAL = Opaque("signalmod", None, SIG_IGN="SIG_IGN", SIG_DFL="SIG_DFL", SIG_BLOCK=0, SIG_UNBLOCK=1, hasattr={"SIGHUP": True, "SIGQUIT": True},
+                    **{n: n for n in ("SIGINT", "SIGTERM", "SIGHUP", "SIGQUIT", "SIGUSR1", "SIGUSR2", "SIGPIPE", "SIGALRM")})
     p.add(Contract(
         RT, "main", props=["C20"],
         params=dict(fd=INT, verbose=OneOf(0, 1)),
-        globals={"_CLEANUP_FUNCS": CLEAN, "_HAVE_SIGMASK": True, "sys": lambda i: Opaque("sys", None, platform="linux", stdin=Opaque("stdio", None), stdout=Opaque("stdio", None))},
+        calls={"signal.signal": signal_signal},
+        globals={"signal": SIGNAL, "_CLEANUP_FUNCS": CLEAN, "_HAVE_SIGMASK": True, "sys": lambda i: Opaque("sys", None, platform="linux", stdin=Opaque("stdio", None), stdout=Opaque("stdio", None))},
         setup=main_setup,
         ensures={
             # after EOF every name still registered was handed to its clean-up function exactly once
